@@ -9,7 +9,7 @@ CHECK = {
                   "that never round-tripped makes the run inconclusive or violated, never a pass), and every bit of every field of one object per (algorithm, serialization) "
                   "was inverted and had to be rejected. Exhaustive over the matrix and over bit positions of the chosen objects; a sample over keys, payload contents and the "
                   "library's own randomness (IVs, ephemeral keys, salts, CEKs). Not a proof.",
-    "level_note": "Quick tier: the 2048-bit RSA encrypted_key field is sampled (32 edge bits + 96 PRNG bits per object), all other fields and the thorough tier flip every bit; "
+    "level_note": "Quick tier: the 2048-bit RSA encrypted_key field is sampled (32 edge bits + 480 PRNG-chosen bits per object), all other fields and the thorough tier flip every bit; "
                   "one object per (alg, enc, serialization) is tampered, not one per payload size. The library draws IVs/ephemeral keys/salts from crypto/rand, which a black-box "
                   "monitor cannot seed: runs repeat the same cases but not the same ciphertexts (recorded replays carry the serialized object). Trusts Go's crypto, encoding/json "
                   "and the hand-written reference (validated against the RFC 7638 §3.1 and an RFC 7520 P-521 vector). Interoperability facts outside the statement "
